@@ -48,7 +48,7 @@ COMPONENTS = {
                   "file objects (SimFile)", "evaluation failures (EvalPoint)", "process / PYTHONHASHSEED (fresh interpreters)"],
     "stubbed": [],
 }
-EXPECTED_PROBES = ["python-api-model-in-pool", "burst-of-evaluations-on-one-multi-range-function", "identical-form-text-other-helper-in-pool", "eval-exactly-at-range-boundary", "switch-inside-write", "two-tasks-same-handle", "write-after-faulted-write", "excel-write-across-clock-jump",
+EXPECTED_PROBES = ["build-drop-churn", "structured-boundary-pattern", "python-api-model-in-pool", "burst-of-evaluations-on-one-multi-range-function", "identical-form-text-other-helper-in-pool", "eval-exactly-at-range-boundary", "switch-inside-write", "two-tasks-same-handle", "write-after-faulted-write", "excel-write-across-clock-jump",
                    "backwards-clock-jump", "hashseed-comparison", "underspecified-eam-under-hashseeds", "shared-subform-different-args",
                    "same-form-name-different-formula-in-pool", "rebuild-same-model", "write-twice-same-handle", "eval-between-rows-of-own-write"]
 
@@ -306,6 +306,31 @@ def gen_scenario(seed, tier="quick"):
                 if labs:
                     fl = rng.choice(labs)
                     what = rng.choice(["energy", "energy", "force"])
+                    nb = len(own_boundaries(models[hmodel[h]], fl))
+                    if nb and rng.random() < 0.45:
+                        # structured probes for state remembered between evaluations: (far above, exactly on, just above),
+                        # (just above, exactly on, just below), descending sweeps over every boundary, repeats
+                        pat = rng.choice(["above-on-justabove", "justabove-on-below", "descending", "on-repeat"])
+                        bi_lo = rng.randrange(nb)
+                        bi_hi = rng.randrange(nb)
+                        if pat == "above-on-justabove":
+                            pts = [(max(bi_lo, bi_hi), rng.choice([0.05, 0.3, 1e-9])), (min(bi_lo, bi_hi), 0.0),
+                                   (min(bi_lo, bi_hi), rng.choice([1e-9, 0.05, 0.01]))]
+                            if rng.random() < 0.5:
+                                pts.insert(0, (nb - 1, 0.5))
+                        elif pat == "justabove-on-below":
+                            pts = [(bi_lo, rng.choice([1e-9, 0.05])), (bi_lo, 0.0), (bi_lo, rng.choice([-1e-9, -0.05])), (bi_lo, 0.0)]
+                        elif pat == "descending":
+                            pts = []
+                            for b in range(nb - 1, -1, -1):
+                                pts += [(b, 0.05), (b, 0.0), (b, -0.05)]
+                            pts = pts[:9]
+                        else:
+                            pts = [(bi_lo, 0.0), (bi_hi, 0.3), (bi_lo, 0.0), (bi_lo, 1e-9), (bi_lo, 0.0)]
+                        for b, eps in pts:
+                            ops.append({"op": "eval", "h": h, "fi": 0, "fl": fl, "what": what, "ri": 0, "off": 0.0,
+                                        "bi": b, "own": True, "eps": eps})
+                        continue
                     for _ in range(rng.randint(3, 6)):
                         op = {"op": "eval", "h": h, "fi": 0, "fl": fl, "what": what, "ri": rng.randrange(64),
                               "off": rng.choice([0.0, 0.0, 0.5, 0.013, -0.25])}
@@ -323,6 +348,24 @@ def gen_scenario(seed, tier="quick"):
                     op["bi"] = rng.randrange(64)
                     op["eps"] = rng.choice([0.0, 0.0, 1e-9, -1e-9])
                 ops.append(op)
+            elif r < 0.83 and len(models) >= 2:
+                # churn: build and drop models in turn, then build one and write it - state keyed on object identity
+                # (id(), weak references) meets recycled addresses here
+                cyc = rng.randint(2, 5)
+                for c in range(cyc):
+                    hc = "t%dh%d" % (t, nh)
+                    nh += 1
+                    mc = rng.randrange(len(models))
+                    ops.append({"op": "build", "h": hc, "m": mc})
+                    hmodel[hc] = mc
+                    if rng.random() < 0.5:
+                        ops.append({"op": "eval", "h": hc, "fi": rng.randrange(64), "what": "energy", "ri": rng.randrange(64), "off": 0.0})
+                    if c < cyc - 1:
+                        ops.append({"op": "drop", "h": hc})
+                    else:
+                        ops.append({"op": "write", "h": hc})
+                        mine.append(hc)
+                        readable.append(hc)
             elif r < 0.87 and mine:
                 ops.append({"op": "write_faulted", "h": rng.choice(mine), "kf": round(rng.random(), 4), "kind": rng.choice(FAULT_KINDS)})
             elif r < 0.90 and mine:
@@ -951,6 +994,14 @@ def _probes(sc, refs, res, extra, bump):
         for op in ops:
             if op["op"] == "eval" and "bi" in op and op.get("eps") == 0.0 and op["h"] in hmodel and range_boundaries(sc["models"][hmodel[op["h"]]]):
                 bump("probe:eval-exactly-at-range-boundary")
+    for ops in sc["tasks"]:
+        kinds = [o["op"] for o in ops]
+        for i in range(len(kinds) - 3):
+            if kinds[i] == "build" and "drop" in kinds[i + 1:i + 3] and "build" in kinds[i + 2:i + 4]:
+                bump("probe:build-drop-churn")
+                break
+        if any(o["op"] == "eval" and o.get("own") and o.get("ri") == 0 and o.get("off") == 0.0 and "fl" in o for o in ops):
+            bump("probe:structured-boundary-pattern")
     if "other-helper" in sc.get("model_tags", []):
         bump("probe:identical-form-text-other-helper-in-pool")
     if any(op.get("own") and op.get("eps") == 0.0 for ops in sc["tasks"] for op in ops if op["op"] == "eval"):
